@@ -2,6 +2,7 @@ import Originium.Generated.Types
 import Originium.Model.Key
 import Originium.Model.Codec
 import Originium.Model.VKey
+import Originium.Model.DB
 /-! Tie of the translated `types.CompareKeys`, `types.IsSameKey` and `utils.LCP` (Generated/Types.lean) to the hand models
     `Key.compareKeys?` and `Codec.lcp`. -/
 namespace TypesTie
@@ -101,6 +102,14 @@ theorem lcp_eq (a b : List UInt8) : GenTypes.lcp a b = Codec.lcp a b := by
   have := lcp_loop a b 0 (a.length + 1) (by omega)
   simpa [GenTypes.lcp] using this
 
+/-- The translated `types.Value` applied to what the search found is the model's `valueOf`: a tombstone is "not found". -/
+theorem value_eq (r : Option Levels.E) :
+    r.bind (fun e => GenTypes.value e.tomb e.value) = DB.valueOf r := by
+  cases r with
+  | none => rfl
+  | some e => simp only [Option.bind_some, GenTypes.value, DB.valueOf]
+
+#print axioms value_eq
 #print axioms compareKeys_eq
 #print axioms lcp_eq
 #print axioms compareKeys_neg_iff_vlt
